@@ -40,7 +40,7 @@ def present(m, how):
 
 def _sort(ctx):
     from cij.misc.evec_sort import evec_sort
-    n_cases = ctx.pick(400, 20000)
+    n_cases = ctx.pick(400, 200000)
     for i in range(n_cases):
         if not ctx.mine(i, f"sort{i}"):
             continue
@@ -79,7 +79,7 @@ def _sort(ctx):
             wrong = sum(1 for x, y in zip(got, want) if x != y)
             ctx.violation(f"sort:wrong-position:{'complex' if cplx else 'real'}", f"n={n} {cls}: {wrong} items misplaced", case_id, {"n": n, "perm": perm})
     # unrelated bases: still a permutation
-    for i in range(ctx.pick(60, 2000)):
+    for i in range(ctx.pick(60, 20000)):
         if not ctx.mine(i, f"unrel{i}"):
             continue
         rng = ctx.rng("unrel", i)
@@ -130,7 +130,7 @@ def _sort(ctx):
 
 def _disp2eig(ctx):
     from cij.misc.evec_disp2eig import evec_disp2eig
-    for i in range(ctx.pick(300, 12000)):
+    for i in range(ctx.pick(300, 200000)):
         if not ctx.mine(i, f"d2e{i}"):
             continue
         rng = ctx.rng("d2e", i)
@@ -219,7 +219,7 @@ def _load(ctx):
     from cij.misc.evec_load import evec_load
     tmp = tempfile.mkdtemp(prefix="c20-")
     try:
-        for i in range(ctx.pick(40, 1500)):
+        for i in range(ctx.pick(40, 15000)):
             if not ctx.mine(i, f"load{i}"):
                 continue
             rng = ctx.rng("load", i)
